@@ -67,6 +67,7 @@ type VC struct {
 	topParams  map[string]TV
 	globals    Term
 	freshRefs  map[string]bool
+	havocedUnregistered map[string]bool
 	lockReleased bool // a monitor lock was released earlier in the symbolic run (a later acquire starts a new critical section)
 }
 
@@ -126,6 +127,7 @@ func NewVC(w *World, fn *ssa.Function) *VC {
 		summary: map[*ssa.Function]*fnSummary{}}
 	vc.script.defs = map[string]string{}
 	currentDefs = vc.script.defs
+	currentDefSorts, patConstOf, pendingPatConsts = map[string]Sort{}, map[string]string{}, nil
 	vc.registerComp(allocComp, compInfo{Sort: ArrSort(SInt, SBool), Depth: 1})
 	vc.base0 = vc.newBase(Term{})
 	a0 := vc.baseGet(vc.base0, allocComp)
@@ -151,6 +153,7 @@ func (vc *VC) oblige(st *State, kind, name, src string, goal Term) {
 		vc.note("run-time panic freedom is not claimed for " + vc.topKey + " (calls unspecified externals)")
 		return
 	}
+	vc.script.flushPatConsts()
 	full := vc.topKey + "#" + name
 	vc.oblNames[full]++
 	if n := vc.oblNames[full]; n > 1 {
